@@ -90,7 +90,7 @@ func verifSharedSecretClass(u []*verifGhost) bool {
 	return u[0].tracked && u[1].tracked
 }
 
-// VerifC08Histories: every history (bounded length) of register / duplicate /
+// VerifC08Histories: every history of four operations of register / duplicate /
 // validate / connect / advance time / sweep over a universe of four possible
 // registrations (one secret with two transports, a second secret, the same
 // secret on a second phantom of the other family).
@@ -102,7 +102,7 @@ func VerifC08Histories() {
 	r := verifRegistry(&ann)
 	logger := verifLogger()
 	u := verifUniverse()
-	n := 3
+	n := 4 // history length (14 operations per step, sharded on the first)
 	shared := false
 	for step := 0; step < n; step++ {
 		op := verifnd.Choose("op", 14)
